@@ -22,7 +22,7 @@ THEOREMS = [
     "range_visits_increasing", "range_visits_nodup", "range_skips_deleted", "range_visit_live", "range_spec", "range_readonly",
     "range_forms_same_walk", "range_spec_forms", "range_forms_skip_deleted", "seeded_unbound_counterexample",
     "typComparable_eq_spec", "unhashable_iff_some_field_unhashable", "unhashable_array_iff", "keyFor_ignores_blank_values_only",
-    "seeded_comparable_counterexample",
+    "seeded_comparable_counterexample", "lookup_panics_iff_unhashable", "nil_map_read_misses", "seeded_nil_read_counterexample",
 ]
 
 INT_KINDS = {
@@ -1364,7 +1364,10 @@ class GoGrid:
         return "struct{ " + "; ".join(fs) + " }" if fs else "struct{}"
 
 
-HASH_OPS = ["insert", "lookup", "commaok", "delete", "literal", "rangedel", "emptylookup", "nested-struct", "nested-array"]
+HASH_OPS = ["insert", "lookup", "commaok", "delete", "literal", "rangedel", "emptylookup", "nested-struct", "nested-array",
+            "nil-lookup", "nil-commaok", "nil-delete", "empty-commaok", "empty-delete",
+            "nil-nested-struct-lookup", "nil-nested-struct-commaok", "nil-nested-struct-delete",
+            "nil-nested-array-lookup", "nil-nested-array-delete", "empty-nested-struct-lookup", "empty-nested-array-delete"]
 
 HASH_HEAD = r"""package main
 
@@ -1391,7 +1394,19 @@ func try(name string, f func()) {
 }
 
 type sk struct{ k interface{} }
+
+// emitted shape of reads and deletes (structural tie): the key is hashed at the call site
+func shapeIndex(m map[interface{}]int, k interface{}) int { return m[k] }
+func shapeCommaOk(m map[interface{}]int, k interface{}) bool {
+	_, ok := m[k]
+	return ok
+}
+func shapeDelete(m map[interface{}]int, k interface{}) { delete(m, k) }
 """
+
+MAPOP_SHAPES = [("index", r"shapeIndex = function[^{]*\{.*?\$mapIndex\(m, *\$emptyInterface\.keyFor\(k\)\)"),
+                ("comma-ok", r"shapeCommaOk = function[^{]*\{.*?\$mapIndex\(m, *\$emptyInterface\.keyFor\(k\)\)"),
+                ("delete", r"shapeDelete = function[^{]*\{.*?\$mapDelete\(m, *\$emptyInterface\.keyFor\(k\)\)")]
 
 HASH_CASE = r"""
 type H%(n)d = %(ty)s
@@ -1414,6 +1429,23 @@ func h%(n)d() {
 	try("h%(n)d nested-struct", func() { ms[sk{z}] = 1 })
 	ma := map[[1]interface{}]int{}
 	try("h%(n)d nested-array", func() { ma[[1]interface{}{z}] = 1 })
+	// reads and deletes hash the key BEFORE looking at the map: nil and empty maps panic on unhashable keys too
+	var mn map[interface{}]int
+	try("h%(n)d nil-lookup", func() { _ = mn[z] })
+	try("h%(n)d nil-commaok", func() { _, ok := mn[z]; _ = ok })
+	try("h%(n)d nil-delete", func() { delete(mn, z) })
+	me := map[interface{}]int{}
+	try("h%(n)d empty-commaok", func() { _, ok := me[z]; _ = ok })
+	try("h%(n)d empty-delete", func() { delete(me, z) })
+	var msn map[sk]int
+	try("h%(n)d nil-nested-struct-lookup", func() { _ = msn[sk{z}] })
+	try("h%(n)d nil-nested-struct-commaok", func() { _, ok := msn[sk{z}]; _ = ok })
+	try("h%(n)d nil-nested-struct-delete", func() { delete(msn, sk{z}) })
+	var man map[[1]interface{}]int
+	try("h%(n)d nil-nested-array-lookup", func() { _ = man[[1]interface{}{z}] })
+	try("h%(n)d nil-nested-array-delete", func() { delete(man, [1]interface{}{z}) })
+	try("h%(n)d empty-nested-struct-lookup", func() { _ = map[sk]int{}[sk{z}] })
+	try("h%(n)d empty-nested-array-delete", func() { delete(map[[1]interface{}]int{}, [1]interface{}{z}) })
 }
 """
 
@@ -1454,8 +1486,18 @@ def run_hash(chk, tier):
             ("st", [("B", ("i",)), ("N", ("i",))]), ("sl",), ("i",)]
     gg = GoGrid()
     body = "".join(HASH_CASE % {"n": n, "ty": gg.gotype(t)} for n, t in enumerate(sel))
-    src = HASH_HEAD + "\n".join(gg.decls) + "\n" + body + "\nfunc main() {\n" + "".join("\th%d()\n" % n for n in range(len(sel))) + "}\n"
-    res = progs.run_jobs([{"id": "c15hash", "files": {"main.go": src}, "variants": ["plain", "minify"], "native": True, "timeout": 900}])[0]
+    src = HASH_HEAD + "\n".join(gg.decls) + "\n" + body + "\nfunc main() {\n" + "".join("\th%d()\n" % n for n in range(len(sel))) + (
+        "\tprintln(\"shape\", shapeIndex(nil, 1), shapeCommaOk(nil, 1))\n\tshapeDelete(nil, 1)\n}\n")
+    res = progs.run_jobs([{"id": "c15hash", "files": {"main.go": src}, "variants": ["plain", "minify"], "native": True, "timeout": 900, "keep_js": True}])[0]
+    import re
+    jsrc = res["runs"]["plain"].get("js", "")
+    for name, rx in MAPOP_SHAPES:
+        chk.add_case("mapop-shape", name, True, "shape:" + name)
+        m = re.search(rx, jsrc, re.S)
+        if not m or m.group(0).count("function") > 1:
+            near = re.search(r"shape%s = function.{0,300}" % {"index": "Index", "comma-ok": "CommaOk", "delete": "Delete"}[name], jsrc, re.S)
+            chk.add_tie_break("mapop-shape", "emitted %s on map[interface{}]int" % name, (near.group(0) if near else "(function not found)")[:300],
+                              "$mapIndex/$mapDelete(m, $emptyInterface.keyFor(k)): key hashed at the call site, before the nil test")
     nat = progs.observe_native(res["runs"]["native"])
     if nat[1] != "exit0":
         raise RuntimeError("hash-grid program does not run natively: %s\n%s" % (nat[1], res["runs"]["native"].get("stderr", res["runs"]["native"].get("err", ""))[-1500:]))
